@@ -94,34 +94,49 @@ def handleCluster (fs : List (String × String)) : String := Id.run do
     let now := idx + 1
     let env : Env := { now, ipAllowed := true, delegateOk := true, offset := 0 }
     let ghost := ghosts[xi]?.getD #[]
-    let mut cop : COp := .age x ""
+    -- the cluster steps this harness operation stands for (a batch merge is one delivery per entry)
+    let mut cops : List COp := []
     match parts with
     | ["V", _, ms] =>
       let some m := parseMsg ms | return s!"PARSE msg{idx}:{ms}"
       match w.pool.findIdx? (· == m) with
-      | some k => cop := .deliver x k env
+      | some k => cops := [.deliver x k env]
       | none =>
         if agree then notes := s!"op{idx}:{tok}:claim-not-in-model-pool" :: notes
         agree := false
         -- continue with the claim injected, so that later steps stay comparable
         w := { w with pool := w.pool ++ [m] }
-        cop := .deliver x (w.pool.length - 1) env
-    | ["N", _] => cop := .snapshot x
-    | ["U", _, md] => cop := .announce x 0 0 (md.toNat?.getD 0) [] env
-    | ["L", _] => cop := .leave x env
+        cops := [.deliver x (w.pool.length - 1) env]
+    | ["W", _, mss] =>
+      for ms in mss.splitOn "+" do
+        let some m := parseMsg ms | return s!"PARSE msg{idx}:{ms}"
+        match w.pool.findIdx? (· == m) with
+        | some k => cops := cops ++ [.deliver x k env]
+        | none =>
+          if agree then notes := s!"op{idx}:{tok}:claim-not-in-model-pool" :: notes
+          agree := false
+          w := { w with pool := w.pool ++ [m] }
+          cops := cops ++ [.deliver x (w.pool.length - 1) env]
+    | ["N", _] => cops := [.snapshot x]
+    | ["U", _, md] => cops := [.announce x 0 0 (md.toNat?.getD 0) [] env]
+    | ["L", _] => cops := [.leave x env]
     | ["F", _, ti] =>
       match ghost[ti.toNat?.getD 0]? with
-      | some (node, ca) => cop := .fire x node ca env
-      | none => cop := .age x ""
-    | ["R", _] => cop := .reap x
-    | ["G", _, nm] => cop := .age x nm
-    | ["P", _, t] => cop := .probeFail x t env
+      | some (node, ca) => cops := [.fire x node ca env]
+      | none => cops := [.age x ""]
+    | ["R", _] => cops := [.reap x]
+    | ["G", _, nm] => cops := [.age x nm]
+    | ["P", _, t] => cops := [.probeFail x t env]
     | _ => return s!"PARSE tok{idx}:{tok}"
     let some pre := nodeAt w x | return s!"PARSE nonode{idx}"
-    let mOuts := match nodeOp w cop with
-      | some (_, o) => canonOuts (stepEmit pre o)
-      | none => []
-    let w' := w.step cop
+    let mut w' := w
+    let mut emitted : List (Out × List Msg) := []
+    for cop in cops do
+      match nodeOp w' cop, nodeAt w' x with
+      | some (_, o), some cur => emitted := emitted ++ stepEmit cur o
+      | _, _ => pure ()
+      w' := w'.step cop
+    let mOuts := canonOuts emitted
     let some n' := nodeAt w' x | return s!"PARSE nonode'{idx}"
     let fresh := n'.timers.filter fun t => !(ghost.any fun g => g.1 == t.node && g.2 == t.changedAt)
     let mut ghost' := ghost
